@@ -95,13 +95,21 @@ def judge_randomly(ns, nd, evenly, maxc, choices, res):
     return out
 
 
-def run_many_to_one(ns, async_requests):
+def run_many_to_one(ns, async_requests, shape="list"):
     src = [f"s{i}" for i in range(ns)]
     w = RecWorld()
     kw = dict(async_requests=True) if async_requests else {}
-    mutil.connect_many_to_one(w, src, "D", "a", ("b", "c"), **kw)
+    # src_set is documented as an iterable: lists, tuples, sets of entities, but also
+    # one-shot iterators (itertools.chain of entity lists is the idiom of mosaik's own docs)
+    arg = {"list": list(src), "tuple": tuple(src), "iter": iter(src),
+           "chain": itertools.chain(src[:1], src[1:]), "gen": (x for x in src)}[shape]
     out = []
-    case = dict(fn="connect_many_to_one", ns=ns, async_requests=async_requests)
+    case = dict(fn="connect_many_to_one", ns=ns, async_requests=async_requests, shape=shape)
+    try:
+        mutil.connect_many_to_one(w, arg, "D", "a", ("b", "c"), **kw)
+    except Exception as e:  # noqa: BLE001
+        return [dict(prop="C18", kind="many-to-one-raises", cls=None,
+                     msg=f"raised {e!r}: {case}", case=case)]
     if [c[0] for c in w.calls] != src or any(c[1] != "D" for c in w.calls):
         out.append(dict(prop="C18", kind="many-to-one-wrong", cls=None,
                         msg=f"calls {w.calls}: {case}", case=case))
@@ -115,7 +123,7 @@ def run_many_to_one(ns, async_requests):
 def replay(doc):
     c = doc["case"]
     if c["fn"] == "connect_many_to_one":
-        v = run_many_to_one(c["ns"], c["async_requests"])
+        v = run_many_to_one(c["ns"], c["async_requests"], c.get("shape", "list"))
     else:
         from .choices import Chooser
         maxc = INF if c["max_connects"] is None else c["max_connects"]
@@ -159,9 +167,10 @@ def check(prop, tier):
                         nontriv += 1
     for ns in range(0, 5):
         for ar in (False, True):
+          for shape in ("list", "tuple", "iter", "chain", "gen"):
             cases += 1
             execs += 1
-            for v in run_many_to_one(ns, ar):
+            for v in run_many_to_one(ns, ar, shape):
                 kinds[v["kind"]] = kinds.get(v["kind"], 0) + 1
                 rep.report(v, dict(kind="call", module="mc.enum_c18", case=v["case"]))
     rc = rep.finish()
